@@ -19,6 +19,9 @@ CHECKS = {
  'C20': dict(cat='exploration', tech='perturbation differential (environment, locale, allocator fill/tunables, ASLR, cwd, stdin/pipe/path, -o, argv[0]) with byte comparison; valgrind memcheck; strace and LD_PRELOAD audits',
              text='Each input (suite, corpus, generated valid, odd-shaped and mutated invalid programs) is compiled under 21 perturbed conditions and stdout, stderr and status are byte-compared with the baseline; valgrind reports uses of uninitialised values; syscall and libc-call audits look for time, randomness, locale and stray file access.',
              note='Only C/POSIX/C.UTF-8 locales exist in the image: locale dependence is observable through the setlocale interposer only. Diagnostics may differ in the spelled input name and argv[0].', ref='4/C20'),
+ 'C06': dict(cat='exploration', tech='differential data-image comparison: layout tables and bit-field images emitted by cproc vs ELF objects from clang --target (3 targets) and gcc',
+             text='For generated struct/union/enum types (every scalar member type, arrays, nesting, anonymous members, bit-fields of all widths incl. zero-width/unnamed, packed, _Alignas, flexible arrays) the table {sizeof, _Alignof, offsetof and sizeof of every member path} and one all-ones image per bit-field are compared byte for byte with clang --target for x86_64, aarch64 and riscv64 (gcc must agree on x86-64); C23 enum typing is compared with expectations written from N3029/N3030.',
+             note='Trusted: clang 14 psABI implementations; aligned(n) attributes are not generated (diagnosed as unsupported by the tree).', ref='4/C06'),
  'C03': dict(cat='exploration', tech='online validator (re-implemented QBE parse/typecheck/SSA rules) over every accepted output; strace write-fault injection',
              text='Every module printed with exit status 0 (suite, corpus, generated, odd-shaped and mutated inputs, cproc\'s own sources; three targets) is parsed and checked by an independent IL validator; output faults are injected at the k-th write.',
              note='Trusted: vf.ilcheck (silent on the 159 stored .qbe files and the self-compiled IL); data sizes vs C objects are judged by C06/C07.', ref='4/C03'),
